@@ -50,7 +50,8 @@ ASSUMPTIONS = [
     "tries to unpickle every array)",
     "an attrs-decorated class is modelled as a plain object whose attributes are its declared fields (what "
     "_recursive_save iterates); attributes outside the declared fields and __attrs_post_init__ are not modelled",
-    "SummaryWriter loggers have no constructor in the model: judged by the oracle alone (same kind of object back)",
+    "a SummaryWriter is modelled by what the serializer stores and restores (log_dir, max_queue, flush_secs, "
+    "filename_suffix); the event files it writes are not part of the object graph",
 ]
 TRUSTED = [
     "Coq 8.16.1 kernel incl. vm_compute (used to run the model); no native_compute",
